@@ -93,22 +93,32 @@ def lifetimes_crash_family(rng: random.Random, prop: str, world: dict, ctl: Ctl,
         lt = {"route": "construct"} if i == 0 else _route(rng, world, allow_new=(prop != "C11" or rng.random() < 0.3))
         if i > 0:
             lt["fallback"] = True
-            lt["over"] = _draw_over(rng, prop, eff)
-            eff = _apply_over(eff, lt["over"])
+            lt["over"] = _draw_over(rng, prop, eff, allow_f0=(kind == "clean"))
+            if lt["over"].get("checkpoint_frequency") == 0:
+                kind = "clean"  # nothing is written in this lifetime; later ones restore the old directory
+            else:
+                eff = _apply_over(eff, lt["over"])
         lt["writer"] = P.draw_writer(rng, crashing=(kind == "crash"))
         if kind == "clean":
             lt["ops"] = _split_ops(rng, lo, p, prop) + [{"op": "wait"}]
             lo = p
         else:
-            lt["ops"] = [{"op": "solve_to", "it": Tmax}]
-            # the kill lands in (prev, p]; the next lifetime restarts at a committed step <= p
-            lt["crash"] = P.draw_crash(rng, eff, max(prev, p - 2 * eff["f"] - 1), p, end, False)
+            if rng.random() < 0.2:
+                # killed right after solve() returned at its limit, final save still in flight
+                # (what a script that exits without waiting amounts to, observation O-2)
+                lt["ops"] = [{"op": "solve_to", "it": p}]
+                pert = {"kind": rng.choice(["none", "tmp_subset", "tmp_trunc", "partial_delete"]), "pseed": rng.randint(0, 10**6)}
+                lt["crash"] = {"seam": ["solve_return", 0], "phase": rng.choice(P.PHASES), "perturb": pert}
+            else:
+                lt["ops"] = [{"op": "solve_to", "it": Tmax}]
+                # the kill lands in (prev, p]; the next lifetime restarts at a committed step <= p
+                lt["crash"] = P.draw_crash(rng, eff, max(prev, p - 2 * eff["f"] - 1), p, end, False)
         prev = p
         lts.append(lt)
     lt = {"route": "construct"} if not lts else _route(rng, world, allow_new=True)
     if lts:
         lt["fallback"] = True
-        lt["over"] = _draw_over(rng, prop, eff)
+        lt["over"] = _draw_over(rng, prop, eff, allow_f0=True)
         if prop in ("C10",) and rng.random() < 0.5:
             lt["step"] = "explicit"  # resolved against the model at execution time
     lt["writer"] = P.draw_writer(rng)
@@ -134,9 +144,11 @@ def _split_ops(rng, lo, hi, prop):
     return [{"op": "solve_to", "it": hi}]
 
 
-def _draw_over(rng, prop, eff):
+def _draw_over(rng, prop, eff, allow_f0=False):
     over = {}
     p = {"C10": 0.6, "C12": 0.6, "C09": 0.3, "C11": 0.15}.get(prop, 0.2)
+    if allow_f0 and prop in ("C10", "C12") and rng.random() < 0.12:
+        return {"checkpoint_frequency": 0}  # checkpointing switched off on restore
     if rng.random() < p:
         if rng.random() < 0.5:
             over["checkpoint_frequency"] = rng.randint(1, 5)
@@ -415,8 +427,16 @@ def check_directory(V: Verdicts, prop, plan, run: Run, content: bool = True):
             continue
         eff = h["eff"]
         if eff["f"] == 0:
-            if h.get("end_listing") != ["<absent>"]:
-                V.bad(f"{prop}:directory_created_with_f0", f"lifetime {li}: checkpoint_frequency=0 but directory has {h.get('end_listing')}")
+            lst = h.get("end_listing")
+            if h["src"] == h["dst"] and li > 0:
+                # checkpointing switched off on restore into the same directory: nothing may change
+                steps = sorted(int(x) for x in (lst or []) if x.isdigit())
+                if steps != list(h["model"]["dst_steps"]):
+                    V.bad(f"{prop}:written_with_f0", f"lifetime {li}: checkpoint_frequency=0 but the directory changed from {h['model']['dst_steps']} to {steps}")
+                else:
+                    V.ok("f0_nothing_written")
+            elif lst != ["<absent>"]:
+                V.bad(f"{prop}:directory_created_with_f0", f"lifetime {li}: checkpoint_frequency=0 but directory has {lst}")
             else:
                 V.ok("f0_nothing_written")
             continue
